@@ -8,6 +8,7 @@ use crate::exact::C;
 use crate::refgeom::validity::in_relate_domain;
 use crate::refgeom::{rect_ring, Poly, G};
 use board::{enclosed, trace, BOARD};
+pub use board::{max_g, set_max_g};
 use proptest::prelude::*;
 use serde::{Deserialize, Serialize};
 
@@ -28,7 +29,7 @@ pub fn raw_geom() -> impl Strategy<Value = RawGeom> {
     (
         0..NKINDS,
         proptest::collection::vec(proptest::bool::weighted(0.45), BOARD * BOARD),
-        proptest::collection::vec((0u8..=255, 0u8..13, 0u8..13, 0u8..=255), 1..10),
+        proptest::collection::vec((0u8..=255, 0u8..17, 0u8..17, 0u8..=255), 1..10),
         any::<u32>(),
     )
         .prop_map(|(kind, cells, pts, flags)| RawGeom { kind, cells, pts, flags })
@@ -73,8 +74,8 @@ pub fn xf_strategy() -> impl Strategy<Value = Xf> {
 }
 
 fn lattice_coord(raw: u8, g: usize) -> i64 {
-    // monotone map 0..13 -> 0..=2g
-    (raw as i64 * (2 * g as i64 + 1)) / 13
+    // monotone map 0..17 -> 0..=2g
+    (raw as i64 * (2 * g as i64 + 1)) / 17
 }
 
 /// feature pool of a geometry on the board: vertices, lattice midpoints of its
@@ -156,7 +157,7 @@ pub fn build_geom(raw: &RawGeom, g: usize, pool: &[C], other_cells: Option<&[boo
         while pts.len() < need {
             let src = raw.pts[(i as usize) % raw.pts.len()];
             let h = crate::engine::splitmix64(f as u64 ^ (i + 1).wrapping_mul(0x9E3779B97F4A7C15) ^ ((src.0 as u64) << 24 | (src.1 as u64) << 16 | (src.2 as u64) << 8 | src.3 as u64));
-            pts.push(((h & 255) as u8, ((h >> 8) % 13) as u8, ((h >> 16) % 13) as u8, ((h >> 24) & 255) as u8));
+            pts.push(((h & 255) as u8, ((h >> 8) % 17) as u8, ((h >> 16) % 17) as u8, ((h >> 24) & 255) as u8));
             i += 1;
         }
         padded = RawGeom { kind: raw.kind, cells: raw.cells.clone(), pts, flags: raw.flags };
@@ -496,7 +497,7 @@ pub fn pair_strategy() -> impl Strategy<Value = Pair> {
     (
         raw_geom(),
         raw_geom(),
-        1usize..=BOARD,
+        1usize..=max_g(),
         mat_strategy(),
         prop_oneof![
             12 => Just(None),
@@ -508,7 +509,7 @@ pub fn pair_strategy() -> impl Strategy<Value = Pair> {
 
 /// A single valid model geometry.
 pub fn geom_strategy() -> impl Strategy<Value = G> {
-    (raw_geom(), 1usize..=BOARD, mat_strategy()).prop_filter_map("out of domain", |(r, g, m)| counted((move || {
+    (raw_geom(), 1usize..=max_g(), mat_strategy()).prop_filter_map("out of domain", |(r, g, m)| counted((move || {
         let a = build_geom(&r, g, &[], None)?;
         let mut a = apply_mat(&a, &m);
         let jit = jitter_sel(r.flags);
@@ -528,7 +529,7 @@ pub fn geom_strategy() -> impl Strategy<Value = G> {
 
 /// valid areal geometry (Polygon or MultiPolygon only)
 pub fn areal_strategy() -> impl Strategy<Value = G> {
-    (raw_geom(), 1usize..=BOARD, mat_strategy(), prop_oneof![Just(5u8), Just(6u8), Just(10u8), Just(11u8), Just(12u8)]).prop_filter_map(
+    (raw_geom(), 1usize..=max_g(), mat_strategy(), prop_oneof![Just(5u8), Just(6u8), Just(10u8), Just(11u8), Just(12u8)]).prop_filter_map(
         "out of domain", |(mut r, g, m, kind)| counted((move || {
             r.kind = kind;
             let a = build_geom(&r, g, &[], None)?;
@@ -570,7 +571,7 @@ pub struct Scene {
 }
 
 pub fn scene_strategy(max_partners: usize) -> impl Strategy<Value = Scene> {
-    (raw_geom(), proptest::collection::vec(raw_geom(), 1..=max_partners), 1usize..=BOARD, mat_strategy()).prop_filter_map(
+    (raw_geom(), proptest::collection::vec(raw_geom(), 1..=max_partners), 1usize..=max_g(), mat_strategy()).prop_filter_map(
         "out of domain", |(ra, rbs, g, m)| counted((move || {
             let a0 = build_geom(&ra, g, &[], None)?;
             let pool = feature_pool(&a0);
@@ -616,7 +617,7 @@ pub struct ArealScene {
 pub fn areal_scene_strategy() -> impl Strategy<Value = ArealScene> {
     let areal_kind = || prop_oneof![3 => Just(5u8), 3 => Just(6u8), 1 => Just(10u8), 1 => Just(11u8), 2 => Just(12u8)];
     let line_kind = || prop_oneof![Just(2u8), Just(3u8), Just(4u8)];
-    (raw_geom(), raw_geom(), raw_geom(), areal_kind(), areal_kind(), line_kind(), 1usize..=BOARD, mat_strategy()).prop_filter_map(
+    (raw_geom(), raw_geom(), raw_geom(), areal_kind(), areal_kind(), line_kind(), 1usize..=max_g(), mat_strategy()).prop_filter_map(
         "out of domain", |(mut ra, mut rb, mut rl, ka, kb, kl, g, m)| counted((move || {
             ra.kind = ka;
             rb.kind = kb;
@@ -658,7 +659,7 @@ pub mod bytes {
         let n = u.int_in_range(1..=9usize)?;
         let mut pts = vec![];
         for _ in 0..n {
-            pts.push((u.arbitrary::<u8>()?, u.int_in_range(0..=12u8)?, u.int_in_range(0..=12u8)?, u.arbitrary::<u8>()?));
+            pts.push((u.arbitrary::<u8>()?, u.int_in_range(0..=16u8)?, u.int_in_range(0..=16u8)?, u.arbitrary::<u8>()?));
         }
         // keep empties rare on this path too
         let mut flags: u32 = u.arbitrary()?;
@@ -687,7 +688,7 @@ pub mod bytes {
 
     pub fn pair(u: &mut Unstructured) -> arbitrary::Result<Option<Pair>> {
         let (ra, rb) = (raw_geom(u)?, raw_geom(u)?);
-        let g = u.int_in_range(1..=BOARD)?;
+        let g = u.int_in_range(1..=6usize)?;
         let m = mat(u)?;
         let far = if u.int_in_range(0..=12u8)? == 0 {
             let d = (u.int_in_range(-3..=3i64)? * 14, u.int_in_range(-3..=3i64)? * 14);
@@ -700,7 +701,7 @@ pub mod bytes {
 
     pub fn scene(u: &mut Unstructured, max_partners: usize) -> arbitrary::Result<Option<Scene>> {
         let ra = raw_geom(u)?;
-        let g = u.int_in_range(1..=BOARD)?;
+        let g = u.int_in_range(1..=6usize)?;
         let m = mat(u)?;
         let n = u.int_in_range(1..=max_partners)?;
         let a0 = match build_geom(&ra, g, &[], None) {
@@ -736,7 +737,7 @@ pub mod bytes {
         ra.kind = *u.choose(&[5u8, 6, 10, 11, 12])?;
         rb.kind = *u.choose(&[5u8, 6, 10, 11, 12])?;
         rl.kind = *u.choose(&[2u8, 3, 4])?;
-        let g = u.int_in_range(1..=BOARD)?;
+        let g = u.int_in_range(1..=6usize)?;
         let m = mat(u)?;
         let a0 = match build_geom(&ra, g, &[], None) { Some(x) => x, None => return Ok(None) };
         let pool = feature_pool(&a0);
@@ -777,7 +778,7 @@ mod reject_stats {
     #[test]
     fn areal_scene_reasons() {
         let mut runner = TestRunner::deterministic();
-        let st = (raw_geom(), raw_geom(), raw_geom(), 1usize..=BOARD, mat_strategy(), 0usize..5, 0usize..5, 2u8..5);
+        let st = (raw_geom(), raw_geom(), raw_geom(), 1usize..=max_g(), mat_strategy(), 0usize..5, 0usize..5, 2u8..5);
         let kinds = [5u8, 6, 10, 11, 12];
         let mut cnt = std::collections::BTreeMap::<String, u32>::new();
         for _ in 0..20000 {
